@@ -105,7 +105,7 @@ func (w *World) writeReplayTestFiles(workdir string) (overlayPath string) {
 		}
 		sb.WriteString("}\n\nfunc TestVerifReplay(t *testing.T) {\n\tf := zzVerifTable[os.Getenv(\"VRT_HARNESS\")]\n\tif f == nil {\n\t\tt.Fatalf(\"unknown harness\")\n\t}\n")
 		sb.WriteString("\tif p := os.Getenv(\"VRT_SELFTEST\"); p != \"\" {\n\t\tvrt.SelfTest(p, f)\n\t\treturn\n\t}\n")
-		sb.WriteString("\tif os.Getenv(\"VRT_RACE\") != \"\" {\n\t\t// race replay: the same harness in 8 goroutines at once (run under go test -race)\n\t\tvrt.Reset()\n\t\tvrt.Concurrent = true\n\t\tdone := make(chan bool)\n\t\tfor g := 0; g < 8; g++ {\n\t\t\tgo func() {\n\t\t\t\tfor k := 0; k < 25; k++ {\n\t\t\t\t\tvrt.RunGuarded(f)\n\t\t\t\t}\n\t\t\t\tdone <- true\n\t\t\t}()\n\t\t}\n\t\tfor g := 0; g < 8; g++ {\n\t\t\t<-done\n\t\t}\n\t\tfor _, m := range vrt.Failures {\n\t\t\tt.Errorf(\"ASSERT FAILED: %s\", m)\n\t\t}\n\t\treturn\n\t}\n")
+		sb.WriteString("\tif os.Getenv(\"VRT_RACE\") != \"\" {\n\t\t// race replay: the same harness in 8 goroutines at once (run under go test -race)\n\t\tvrt.Reset()\n\t\tvrt.Concurrent = true\n\t\tdone := make(chan bool)\n\t\tstart := make(chan struct{})\n\t\tfor g := 0; g < 8; g++ {\n\t\t\tgo func() {\n\t\t\t\t<-start // all goroutines enter their first run together\n\t\t\t\tfor k := 0; k < 25; k++ {\n\t\t\t\t\tvrt.RunGuarded(f)\n\t\t\t\t}\n\t\t\t\tdone <- true\n\t\t\t}()\n\t\t}\n\t\tclose(start)\n\t\tfor g := 0; g < 8; g++ {\n\t\t\t<-done\n\t\t}\n\t\tfor _, m := range vrt.Failures {\n\t\t\tt.Errorf(\"ASSERT FAILED: %s\", m)\n\t\t}\n\t\treturn\n\t}\n")
 		sb.WriteString("\tn := 1\n\tif os.Getenv(\"VRT_REPEAT\") != \"\" {\n\t\tn = 200\n\t}\n\tfor i := 0; i < n; i++ {\n\t\tvrt.Reset()\n")
 		sb.WriteString("\t\tpanicked, skipped, val := vrt.RunGuarded(f)\n\t\tif panicked {\n\t\t\tt.Fatalf(\"PANIC: %v\", val)\n\t\t}\n\t\tif skipped {\n\t\t\tt.Logf(\"ASSUMPTION-FAILED\")\n\t\t}\n")
 		sb.WriteString("\t\tfor _, m := range vrt.Failures {\n\t\t\tt.Errorf(\"ASSERT FAILED: %s\", m)\n\t\t}\n\t\tif t.Failed() {\n\t\t\treturn\n\t\t}\n\t}\n}\n")
@@ -159,7 +159,11 @@ func (w *World) replayNative(overlayPath string, doc *ReplayDoc, docPath string,
 		if i := strings.Index(msg, " (candidate writes:"); i >= 0 {
 			msg = msg[:i]
 		}
-		ok = strings.Contains(s, "ASSERT FAILED: "+msg)
+		if doc.Assertion == "" {
+			ok = strings.Contains(s, "ASSERT FAILED: ")
+		} else {
+			ok = strings.Contains(s, "ASSERT FAILED: "+msg)
+		}
 	}
 	return s, ok
 }
@@ -172,7 +176,17 @@ func (w *World) replayRace(overlayPath string, doc *ReplayDoc, docPath string) (
 		"VRT_MODEL="+docPath, "VRT_HARNESS="+doc.Harness, "VRT_RACE=1")
 	out, _ := cmd.CombinedOutput()
 	s := string(out)
-	return s, strings.Contains(s, "DATA RACE") || strings.Contains(s, "ASSERT FAILED")
+	hit := func(s string) bool {
+		return strings.Contains(s, "DATA RACE") || strings.Contains(s, "ASSERT FAILED") || strings.Contains(s, "concurrent map")
+	}
+	// a lazily initialised location is written by the first run only: every process start is one chance
+	for try := 0; try < 5 && !hit(s); try++ {
+		c := exec.Command("go", "test", "-race", "-vet=off", "-count=1", "-overlay", overlayPath, "-run", "^TestVerifReplay$", "./"+doc.Pkg)
+		c.Dir, c.Env = cmd.Dir, cmd.Env
+		o2, _ := c.CombinedOutput()
+		s = string(o2)
+	}
+	return s, hit(s)
 }
 
 func cmdCheck(args []string) {
@@ -242,6 +256,7 @@ func cmdCheck(args []string) {
 	replayed := 0
 	unreplayed := 0
 	var notStatable []string
+	var lemmaFailed []string
 	const maxReplays = 8
 	knownSeen := map[string]bool{}
 
@@ -389,6 +404,42 @@ func cmdCheck(args []string) {
 						out, ok = out2, true
 					}
 				}
+				if s.Lemma && o.Kind != "panic" && !isKF {
+					// a counterexample of a lemma over unexported functions: it shows that the lemma does not hold on this
+					// tree, which is a violation of the property only if it shows through the exported API
+					if s.Confirm == "" {
+						lemmaFailed = append(lemmaFailed, s.Name+": "+o.Name)
+						if !s.Optional {
+							inconclusive++
+							lines = append(lines, fmt.Sprintf("INCONCLUSIVE property=%s harness=%s: the proof step %q does not hold on this tree and there is no check through the exported API to confirm it as a violation (see %s)", *prop, s.Name, o.Name, docPath))
+						} else {
+							lines = append(lines, fmt.Sprintf("NOTE property=%s harness=%s: lemma %q does not hold on this tree (see %s); the property is decided by the harnesses that use the exported API only", *prop, s.Name, o.Name, docPath))
+						}
+						continue
+					}
+					doc2 := &ReplayDoc{Property: *prop, Harness: s.Confirm, Pkg: s.Pkg, Assertion: "", Kind: "assert", Values: o.Model}
+					p2 := strings.TrimSuffix(docPath, ".json") + "-confirm.json"
+					b2, _ := json.MarshalIndent(doc2, "", " ")
+					os.WriteFile(p2, b2, 0o644)
+					cout, cok := w.replayNative(ovp, doc2, p2, false)
+					if cok || strings.Contains(cout, "PANIC:") {
+						doc2.Native = lastLines(cout, 12)
+						b2, _ = json.MarshalIndent(doc2, "", " ")
+						os.WriteFile(p2, b2, 0o644)
+						violations++
+						lines = append(lines, fmt.Sprintf("VIOLATION property=%s replay=%s", *prop, p2))
+						samples = append(samples, map[string]interface{}{"harness": s.Name, "violates": o.Name, "confirmed_by": s.Confirm, "input": o.Model})
+						continue
+					}
+					lemmaFailed = append(lemmaFailed, s.Name+": "+o.Name)
+					if s.Optional {
+						lines = append(lines, fmt.Sprintf("NOTE property=%s harness=%s: lemma %q does not hold on this tree but its counterexample does not show through the exported API (%s passes natively on it): the internal contract differs, the property is decided by the harnesses that use the exported API only", *prop, s.Name, o.Name, s.Confirm))
+					} else {
+						inconclusive++
+						lines = append(lines, fmt.Sprintf("INCONCLUSIVE property=%s harness=%s: the proof step %q does not hold on this tree, but its counterexample satisfies the property through the exported API (%s passes natively on it): the decomposition does not fit this tree and the property is not decided", *prop, s.Name, o.Name, s.Confirm))
+					}
+					continue
+				}
 				isFrame := strings.Contains(o.Name, "(candidate writes:")
 				if !ok && isFrame && (*prop == "C16" || *prop == "C15") {
 					// a write to a pre-existing location that is not observable sequentially: is it a data race?
@@ -401,6 +452,14 @@ func cmdCheck(args []string) {
 						b, _ = json.MarshalIndent(doc, "", " ")
 						os.WriteFile(docPath, b, 0o644)
 						lines = append(lines, fmt.Sprintf("NOTE property=%s harness=%s: %s: the write is not observable through the public API in a sequential replay (the harness' own result comparisons decide C15; C16 judges it under the race detector)", *prop, s.Name, o.Name))
+						continue
+					} else if *prop == "C16" {
+						// not observable sequentially and no race reported in the concurrent replay (8 goroutines x 25 runs
+						// under the race detector): a synchronised or idempotent write (sync.Once, sync.Map, same value)
+						doc.Native = lastLines(rout, 6)
+						b, _ = json.MarshalIndent(doc, "", " ")
+						os.WriteFile(docPath, b, 0o644)
+						lines = append(lines, fmt.Sprintf("NOTE property=%s harness=%s: %s: the write is neither observable sequentially nor reported by the race detector in the concurrent replay; the static scan decides whether its synchronisation is within the argument", *prop, s.Name, o.Name))
 						continue
 					}
 				}
@@ -494,9 +553,15 @@ func cmdCheck(args []string) {
 	}
 	if (*prop == "C15" || *prop == "C16") && (len(scan.GlobalWrites) > 0 || len(scan.GoStmts) > 0 || len(scan.SyncUses) > 0) {
 		// the frame harnesses decide whether a write is observable; synchronisation is not modelled at all
-		if len(scan.SyncUses) > 0 || len(scan.GoStmts) > 0 {
+		// C15 is about sequential executions, for which sync.Map (a map), sync.Once (a flag) and mutexes (no-ops) are
+		// modelled; C16 accepts sync.Map on scalar payloads and sync.Once with dominated accesses and nothing else
+		if *prop == "C16" && (len(scan.SyncUnmodelled) > 0 || len(scan.GoStmts) > 0) {
 			inconclusive++
-			fmt.Printf("INCONCLUSIVE property=%s: the code under test uses goroutines or sync primitives, which the non-interference argument does not model: %v %v\n", *prop, scan.GoStmts, scan.SyncUses)
+			fmt.Printf("INCONCLUSIVE property=%s: the code under test uses goroutines or synchronisation that the non-interference argument does not cover: %v %v\n", *prop, scan.GoStmts, scan.SyncUnmodelled)
+		}
+		if *prop == "C15" && len(scan.GoStmts) > 0 {
+			inconclusive++
+			fmt.Printf("INCONCLUSIVE property=%s: the code under test starts goroutines, which the sequential model does not cover: %v\n", *prop, scan.GoStmts)
 		}
 	}
 	var hsum []map[string]interface{}
@@ -539,6 +604,7 @@ func cmdCheck(args []string) {
 			"known_findings_seen": len(knownSeen),
 			"static_scan":         scan,
 			"harnesses_not_statable_on_this_tree": notStatable,
+			"lemmas_not_holding_on_this_tree":     lemmaFailed,
 			"explanation":         explanationFor(*prop),
 		},
 		"assumptions": []string{
